@@ -9,6 +9,7 @@ import (
 	"net/url"
 	"os"
 	"servitor/client"
+	"servitor/config"
 	"servitor/jtp"
 	"strings"
 	"time"
@@ -223,6 +224,7 @@ func init() {
 		op["ms"] = timings
 		op["canaryhits"] = s.canaryHits()
 		op["resumed"] = s.resumedSessions()
+		op["cachesize"] = config.Parsed.Network.CacheSize
 		return results
 	}
 	groups["C03"] = group{gen: genC03}
